@@ -464,7 +464,7 @@ func genListDesc(t *rapid.T, kind string) *E {
 			items[i] = Int(int64(rapid.IntRange(-20, 120).Draw(t, "li")))
 		}
 	default:
-		typ = rapid.SampledFrom([]string{"", "[]string"}).Draw(t, "ltyp")
+		typ = rapid.SampledFrom([]string{"", "[]string", "named[]string"}).Draw(t, "ltyp")
 		for i := range items {
 			items[i] = Str(rapid.SampledFrom([]string{"a", "b", "ab", "B", "10", "9", "é", "zz", "", "a b"}).Draw(t, "ls"))
 		}
